@@ -51,8 +51,9 @@ def run(ctx: Ctx) -> None:
     def make():
         ip = SObj("InteractiveParser", {"parser_state": SObj("ParserState", {"value_stack": []})}, methods=("iter_parse", "resume_parse"))
         lalr = SObj("Lark", {"_ip": ip}, methods=("parse_interactive", "parse"))
-        inst = pai.Inst("parser.Parser")
-        inst.attrs.update({"expand_includes": False, "include_comments": True, "_comments": [models.token("COMMENT", SStr.atom("STALE"), line=99)], "lalr": lalr, "kwargs": HDict()})
+        inst = models.new_parser(I, expand_includes=False, include_comments=True)
+        inst.attrs["lalr"] = lalr
+        inst.attrs["_comments"].append(models.token("COMMENT", SStr.atom("STALE"), line=99))  # left over from a previous parse
         holder["inst"] = inst
         holder["tokens"] = [models.token("COMMENT", raw1, line=2), models.token("CCOMMENT", raw2, line=5)]
         return inst, ["<text>"], {}
